@@ -41,6 +41,15 @@ CLAIMS["C07"] = ("other", "null-check contradiction rule (value-chain path searc
     "'never yields a pair that was not in the map'.",
     "DESIGN.md §4 C07", TRUST + " Four reviewed T1 exceptions are frozen by (function, field) with their invariant in vf/rules_c07.py.")
 
+CLAIMS["C14"] = ("other", "affine abstract interpretation over MIR + who-may-call / dominance rules",
+    "Clauses of the capacity contract decided from the code's shape: the counter value compared with the threshold equals what the atomic "
+    "RMW left in memory (so removals never look like growth); capacity rounding is min(2^30, next_pow2(1.5c+1)) in both presize paths and "
+    "every published threshold is 3/4 of the new length; resizes are initiated only by add_count (behind the hint test and count >= "
+    "threshold) and try_presize (reserve, or an overfull bin in a table shorter than 64); initiation is guarded by len < 2^30; the table "
+    "pointer is only ever replaced by a fresh or doubled table; the constants are as stated; capacity 0 allocates nothing. Not decided: "
+    "'holds c well-distributed entries' (hash distribution) and power-of-two lengths (Q3, under C05).",
+    "DESIGN.md §4 C14", TRUST + " x >> k is modelled as x/2^k (exact for the power-of-two lengths it is applied to).")
+
 NOT_APPLICABLE = {
     "C02": "Quantifies over all operation sequences x hashers x capacities and asserts equality of run-time values (return values, "
            "contents) with a reference map; no path-, type- or call-graph-shaped clause carries it. Its only structural clause "
